@@ -46,7 +46,18 @@ func EvalSymlinks(p string) (string, error) {
 	if _, err := simos.Lstat(p); err != nil {
 		return "", err
 	}
-	return filepath.Clean(p), nil
+	// resolved by the kernel below the world's private root, then mapped back
+	real, err := filepath.EvalSymlinks(simos.Real(p))
+	if err != nil {
+		return "", err
+	}
+	out := simos.Unreal(real)
+	if !filepath.IsAbs(p) {
+		if rel, rerr := filepath.Rel(simos.Nominal("."), out); rerr == nil {
+			return rel, nil
+		}
+	}
+	return out, nil
 }
 
 func Glob(pattern string) ([]string, error) {
